@@ -151,6 +151,8 @@ def pkgo_d(lines):
          ["func (s S) PM(n int) int { return n }", "", "// Q and QF are not annotated.", "type Q struct{ X int }", "",
           "func QF(n int) int { return n }", "", "// PS is open to the using packages of the scenarios; its method PSM has a list of its own.",
           "// @packageonly u, v, m/u, m/vv", "type PS struct{}", "", "// PSM is restricted."] + ann + ["func (p PS) PSM(n int) int { return n }", "",
+          "// S2 has a method that is also called PM, restricted to d itself.", "type S2 struct{}", "", "// PM of S2 is for d only.", "// @packageonly",
+          "func (s S2) PM(n int) int { return n }", "", "// NewPS is restricted."] + ann + ["func NewPS() PS { return PS{} }", "",
           "// hid is unexported; its value Default and its method HM are reachable from outside.", "type hid struct{}", "",
           "// Default is the shared instance.", "var Default hid", "", "// HM is restricted."] + ann + ["func (h hid) HM(n int) int { return n }", "",
           "// state is restricted and unexported; State names it for other packages."] + ann + ["type state struct{ X int }", "",
@@ -196,6 +198,8 @@ def build_pkgo(sc, sid):
                 params = "e%d Emb" % n
             if r == "methCallPS":
                 params = "w%d %sPS" % (n, q)
+            if r == "methCallS2":
+                params = "z%d %sS2" % (n, q)
             out.add("func fn%d(%s) {" % (n, params))
             post = []
             stmt = {
@@ -205,6 +209,8 @@ def build_pkgo(sc, sid):
                 "methCallVar": "_ = gs.PM(%d)" % n,
                 "methCallPS": "_ = w%d.PSM(%d)" % (n, n),
                 "methCallHidden": "_ = %sDefault.HM(%d)" % (q, n),
+                "methCallS2": "_ = z%d.PM(%d)" % (n, n),
+                "chainCall": "_ = %sNewPS().PSM(%d)" % (q, n),
                 "typeVarHidden": "var v%d %sState" % (n, q),
                 "methCallPromoted": "_ = e%d.PM(%d)" % (n, n),
                 "methValuePromoted": "f%d := e%d.PM" % (n, n),
